@@ -479,6 +479,37 @@ def gen_repeated(rng):
     return {'rm': kind, 'cfg': c, 'env': env, 'access': acc}
 
 
+def gen_sequence(rng):
+    """two or three initialisations in ONE process: fresh objects, different
+    resource managers / configurations / SMT values; $RADICAL_SMT set by the
+    user before some steps, kept or unset before others.  RMs whose node list
+    depends on SMT (LSF) are preferred for the later steps."""
+    def pick(late):
+        rm = 'LSF' if rng.random() < (0.6 if late else 0.35) else rng.choice(RMS)
+        st = gen_case(rng, rm, rng.random() < 0.05)
+        c = st['cfg']
+        r = rng.random()
+        if rm != 'LSF':
+            # SMT from the resource config, from the user's environment, or nowhere
+            if r < 0.5:
+                c['smt_env'], c['smt_arch'] = None, rng.choice([1, 2, 4])
+            elif r < 0.7:
+                c['smt_env'], c['smt_arch'] = rng.choice([1, 2, 4]), rng.choice([None, 1, 2])
+            else:
+                c['smt_env'] = c['smt_arch'] = None
+        elif late and r < 0.6 and c.get('smt_env') is not None:
+            # the later LSF pilot takes its SMT from the resource config
+            c['smt_arch'], c['smt_env'] = c['smt_env'], None
+        return st
+    steps = [pick(k > 0) for k in range(rng.choice([2, 2, 3]))]
+    if rng.random() < 0.3:
+        # the user keeps one setting of RADICAL_SMT over two steps
+        steps[-1]['cfg']['smt_env'] = steps[-2]['cfg'].get('smt_env')
+    case = steps[-1]
+    case['priors'] = steps[:-1]
+    return case
+
+
 def hostlist_cases():
     """library behaviour the model takes as an input (ru.get_hostlist)"""
     out = []
@@ -515,7 +546,7 @@ class C18(Prop):
     header = 'From RP Require Import NodeList.Model NodeList.Oracle.'
     clauses = ['one_entry_per_node', 'indices_unique', 'sizes_configured', 'agents_excluded', 'not_empty',
                'not_longer_than_requested', 'same_for_all_components', 'offers_requested_accessible_nodes',
-               'hostlist_expansion']
+               'leaves_no_state', 'hostlist_expansion']
     corr_name = ('NodeList.Model(rm_construct / rm_from_registry) vs ResourceManager.__init__ of '
                  'Slurm/PBSPro/LSF/Fork/Cobalt/Torque/CCM (from scratch, then from the registry)')
     rule = ('corpus, then seed-determined batch-system environments for each of the 7 resource managers '
@@ -523,7 +554,10 @@ class C18(Prop):
             'pseudo nodes, SMT via env or config, blocked cores/gpus, agent layouts, services, backup nodes with ssh '
             'probe outcomes, requested size given or derived), about 15% malformed (unset variables, unreadable files, '
             'bad lines, non-uniform files, oversized requests, layouts that leave no node), 15% preceded by an earlier '
-            'initialisation in the same process, plus allocations whose nodes share a host name (Fork localhost nodes, '
+            'initialisation in the same process, plus sequences of two or three initialisations in one process (different RMs, '
+            'configurations and SMT values, RADICAL_SMT set / kept / unset by the user between steps; every step compared '
+            'with the model of that step alone and the process environment and RMInfo class state compared before/after), '
+            'plus allocations whose nodes share a host name (Fork localhost nodes, '
             'hosts named twice) with backup nodes, probe outcomes and node-bound sub-agents, plus fixed hostlist-expansion cases; thorough tier adds the exhaustive '
             'small scope of _filter_nodes (1-4 nodes x requested 0-5 given/derived x 0-3 agent nodes x service x backup '
             'with every ok/fail probe pattern); non-trivial = the real '
@@ -548,7 +582,9 @@ class C18(Prop):
                    'blocked core/gpu indices of the resource configuration are distinct and non-negative '
                    '(sizes_configured is stated for such configurations)',
                    'one case = one process lifetime: RMInfo class-level state is restored between cases; an earlier '
-                   'initialisation in the same process is part of the case (prior)']
+                   'initialisation in the same process is part of the case (prior / priors); the process environment is put back '
+                   'to pristine before each case, and inside a case only the variables whose given value changes between two '
+                   'steps are touched, so anything an initialisation leaves behind reaches the next step']
     widen_cases = 1500
 
     # ------------------------------------------------------------------ cases
@@ -561,6 +597,8 @@ class C18(Prop):
             per_rm = int(os.environ['VERIF_C18_PER_RM'])
         for k in range(per_rm // 2):
             yield gen_repeated(rng)
+        for k in range(per_rm // 2):
+            yield gen_sequence(rng)
         for k in range(per_rm):
             for rm in RMS:
                 malformed = rng.random() < 0.15
@@ -623,13 +661,23 @@ class C18(Prop):
             for n in obs['names']:
                 L.string(n)
             return '(c18_hostlist_row %s %s)' % (strs(I.hostlist_names(case['groups'])), strs(obs['names']))
+        rows = [self._step_row(p, o) for p, o in zip(I.case_priors(case), obs.get('priors') or [])]
+        rows.append(self._step_row(case, obs))
+        if len(rows) == 1:
+            return rows[0]
+        return '(and_rows %s)' % L.lst(rows)
+
+    @staticmethod
+    def _step_row(case, obs):
         second = L.opt(lit_result(obs['second'])) if 'second' in obs else 'None'
         # python-side facts about the run that the row cannot see
         glue = (not obs.get('stray')
                 and obs['puts'] == (['rm.%s' % I.RM_CLASSES[case['rm']][1].lower()] if 'info' in obs['first'] else [])
                 and obs.get('second_from_registry', True))
-        return '(c18_row %s %s %s %s %s %s)' % (lit_cfg(case['cfg']), lit_env(case), lit_access(case),
-                                               lit_result(obs['first']), second, L.boolean(glue))
+        # the process after the initialisation(s) is the process before them
+        clean = not obs['first'].get('left_behind') and not (obs.get('second') or {}).get('left_behind')
+        return '(c18_row %s %s %s %s %s %s %s)' % (lit_cfg(case['cfg']), lit_env(case), lit_access(case),
+                                                  lit_result(obs['first']), second, L.boolean(glue), L.boolean(clean))
 
     def model_show(self, case):
         if case.get('kind') == 'hostlist':
@@ -646,7 +694,7 @@ class C18(Prop):
             return False
         lines = (case['env'].get('nodefile') or {}).get('lines') or []
         return bool(o['agent_node_list'] or o['service_node_list'] or c.get('blocked_cores') or c.get('blocked_gpus')
-                    or c['backup'] or len(lines) > total or case['rm'] == 'SLURM' or case.get('prior'))
+                    or c['backup'] or len(lines) > total or case['rm'] == 'SLURM' or I.case_priors(case))
 
     def signature(self, case, obs, clause):
         if case.get('kind') == 'hostlist':
@@ -657,7 +705,13 @@ class C18(Prop):
         sig = [clause]
         if clause == 'sizes_configured':
             sig.append(case['rm'])
-        elif case.get('prior'):
+        elif clause == 'leaves_no_state':
+            left = set()
+            for o in [obs] + list(obs.get('priors') or []):
+                for r in (o.get('first'), o.get('second')):
+                    left.update((r or {}).get('left_behind') or [])
+            sig.append('+'.join(sorted(left)) or 'none')
+        elif I.case_priors(case):
             sig.append('after-earlier-init-in-process')
         return ':'.join(sig)
 
@@ -673,17 +727,24 @@ class C18(Prop):
 
         def with_cfg(**kw):
             return dict(case, cfg=dict(c, **kw))
-        if case.get('prior'):
-            d = dict(case)
-            del d['prior']
-            yield d
-            p = case['prior']
-            if p['cfg'].get('services'):
-                yield dict(case, prior=dict(p, cfg=dict(p['cfg'], services=False)))
-            if p['cfg'].get('blocked_cores') or p['cfg'].get('blocked_gpus'):
-                yield dict(case, prior=dict(p, cfg=dict(p['cfg'], blocked_cores=[], blocked_gpus=[])))
-            if p['rm'] != case['rm']:
-                yield dict(case, prior={k: v for k, v in case.items() if k != 'prior'})
+        ps = I.case_priors(case)
+        if ps:
+            bare = {k: v for k, v in case.items() if k not in ('prior', 'priors')}
+
+            def with_priors(l):
+                return dict(bare, priors=l) if l else dict(bare)
+            for i in range(len(ps)):
+                yield with_priors(ps[:i] + ps[i + 1:])
+            for i, p in enumerate(ps):
+                if p['cfg'].get('services') or p['cfg'].get('agents'):
+                    yield with_priors(ps[:i] + [dict(p, cfg=dict(p['cfg'], services=False, agents=[]))] + ps[i + 1:])
+                if p['cfg'].get('blocked_cores') or p['cfg'].get('blocked_gpus'):
+                    yield with_priors(ps[:i] + [dict(p, cfg=dict(p['cfg'], blocked_cores=[], blocked_gpus=[]))] + ps[i + 1:])
+                if p['cfg'].get('backup'):
+                    yield with_priors(ps[:i] + [dict(p, cfg=dict(p['cfg'], backup=0), access=None)] + ps[i + 1:])
+            if len(ps) == 1 and ps[0]['rm'] != case['rm']:
+                yield with_priors([dict(bare, cfg=dict(bare['cfg'], smt_env=ps[0]['cfg'].get('smt_env'),
+                                                        smt_arch=ps[0]['cfg'].get('smt_arch')))])
         e0 = case['env']
         nf0 = e0.get('nodefile')
         if nf0 and nf0.get('lines') and len(nf0['lines']) > 3:
@@ -765,7 +826,7 @@ class C18(Prop):
                 rms['hostlist'] = rms.get('hostlist', 0) + 1
                 continue
             rms[c['rm']] = rms.get(c['rm'], 0) + 1
-            if c.get('prior'):
+            if I.case_priors(c):
                 prior += 1
             if r['obs']:
                 f = r['obs']['first']
